@@ -180,6 +180,9 @@ def data_cases(rnd, n=300):
         ([" ORG $100", "L NOP", " FCB L"], None),            # an address above $FF does not fit a byte
         (["L NOP", " RMB L"], None),                          # a label is not a count
         (["L NOP", " ORG L"], None),                          # a label is not an origin
+        (["N EQU -1", " RMB N"], None),                        # a negative count
+        (["N EQU -2", " FCB N", " FDB N", " FDB N+1", " FCB N*2"], {1: "fe", 2: "fffe", 3: "ffff", 4: "fc"}),
+        (["S EQU -5", " ORG S"], None),                        # a negative origin
         ([" FCB 0-1", " FCB 0-128", " FDB 0-1", " FDB 1-32769"], {0: "ff", 1: "80", 2: "ffff", 3: "8000"}),
         ([" FCB 0-129"], None),
         ([" FCB 255+1"], None),
